@@ -53,8 +53,9 @@ def make_variant(rng_state, kind, axi, exc, harmonic=0.0, refine=1.0):
         c2 = B.prop("circuits", name="c2", type=1, V=exc.get("V2", 0.0))
     else:
         p["frequency"] = harmonic
-        m1 = B.prop("blockprops", name="m1", mu_x=2.0, mu_y=3.0, J_re=exc.get("qv", 0.0), sigma=(1.0 if harmonic else 0.0))
-        m2 = B.prop("blockprops", name="m2", mu_x=50.0, mu_y=50.0, H_c=exc.get("Hc", 0.0), H_cAngle=90.0)
+        lam = exc.get("lam") or {}     # lamination of the two materials (not an excitation; chosen by the omega -> 0 cases)
+        m1 = B.prop("blockprops", name="m1", mu_x=2.0, mu_y=3.0, J_re=exc.get("qv", 0.0), sigma=(1.0 if harmonic else 0.0), **lam.get("m1", {}))
+        m2 = B.prop("blockprops", name="m2", mu_x=50.0, mu_y=50.0, H_c=exc.get("Hc", 0.0), H_cAngle=90.0, **lam.get("m2", {}))
         bl = B.prop("bdryprops", name="left", type=0, A_0=exc.get("Vl", 0.0))
         br = B.prop("bdryprops", name="right", type=0, A_0=0.0)
         c1 = B.prop("circuits", name="c1", type=1, amps_re=exc.get("V1", 0.0))
@@ -189,23 +190,44 @@ def correspond(ctx):
             ctx.fail("reciprocity fails: response of terminal 2 to terminal 1 is %r but of 1 to 2 is %r" % (m21, m12), kind=kind, axi=axi, frequency=freq)
         if len(samples) < 3:
             samples.append(dict(kind=kind, axi=axi, frequency=freq, S1=S1, S2=S2, a=a, b=b, nodes=len(f1), mutual=[str(m21), str(m12)]))
-    # harmonic at vanishing frequency equals static
-    st = rng.randint(0, 10 ** 9)
-    S = dict(Vl=1e-3, qv=1.0, V1=5.0)
-    s0, e0 = solve(ctx, "h_static", make_variant(st, "fem", False, S, 0.0))
-    s1, e1 = solve(ctx, "h_lowfreq", make_variant(st, "fem", False, S, 1e-9))
-    if e0 or e1:
-        ctx.fail("run failed: %s" % (e0 or e1))
-    else:
+    # harmonic at vanishing frequency equals static: planar and axisymmetric, plain and in-plane laminated materials
+    # (LamType 0, several fill factors, with and without a lamination thickness)
+    # (on-edge laminations, LamType 1 / 2, are refused by the AC solvers; permanent magnets have no AC contribution: both left out)
+    lamkinds = [("plain", {}), ("lam0", dict(lamtype=0)), ("lam0", dict(lamtype=0))]
+    hplan = [(axi, lk) for axi in (False, True) for lk in lamkinds]
+    # targeted probe of the recorded defect C05-2 (known_findings.json): in-plane lamination with fill < 1 and d_lam = 0
+    hplan += [(axi, ("C05-2 harmonic solver ignores the lamination fill factor", dict(lamtype=0, probe=True))) for axi in (False, True)]
+    if not ctx.quick():
+        hplan = hplan * 3
+    nh = 0
+    for hk, (axi, (lname, lam)) in enumerate(hplan):
+        st = rng.randint(0, 10 ** 9)
+        S = dict(Vl=1e-3, qv=1.0, V1=5.0, V2=rng.choice([0.0, -3.0]))
+        if lam.get("probe"):
+            S["lam"] = {m: dict(lamtype=0, lamfill=0.5, d_lam=0.0) for m in ("m1", "m2")}
+        elif lam:
+            fill = rng.choice([0.5, 0.7, 0.9, 0.98])
+            which = rng.choice(["m1", "m2", "both"])
+            # fill < 1 with d_lam = 0 is the recorded defect C05-2 (probed separately below): the random cases keep d_lam > 0
+            one = dict(lam, lamfill=fill, d_lam=rng.choice([0.2, 0.35, 0.5]))
+            S["lam"] = {m: one for m in (("m1", "m2") if which == "both" else (which,))}
+        s0, e0 = solve(ctx, "h%d_static" % hk, make_variant(st, "fem", axi, S, 0.0))
+        s1, e1 = solve(ctx, "h%d_lowfreq" % hk, make_variant(st, "fem", axi, S, 1e-9))
+        feats["omega0-" + ("axi-" if axi else "planar-") + lname] = feats.get("omega0-" + ("axi-" if axi else "planar-") + lname, 0) + 1
+        if e0 or e1:
+            ctx.fail("run failed: %s" % (e0 or e1), axi=axi, lamination=S.get("lam"))
+            continue
+        nh += 1
         a0 = [n[2] for n in s0[1]]
         a1 = [complex(n[2], n[3]) if len(n) > 3 else n[2] for n in s1[1]]
         vm = max(abs(x) for x in a0) or 1e-300
         w = max(abs(x - y) for x, y in zip(a0, a1))
         if w > 3e-6 * vm:
-            ctx.fail("time-harmonic solve at vanishing frequency differs from the static one by %.3g (scale %.3g)" % (w, vm))
+            ctx.fail("time-harmonic solve at vanishing frequency differs from the static one by %.3g (scale %.3g; %s, %s)"
+                     % (w, vm, "axisymmetric" if axi else "planar", lname), axi=axi, lamination=S.get("lam"), S={k: v for k, v in S.items() if k != "lam"}, seed_state=st)
     cov = ctx.res.cov
-    cov["evaluations"] = 6 * len(plan) + 2
-    cov["distinct_nontrivial"] = 6 * done
+    cov["evaluations"] = 6 * len(plan) + 2 * len(hplan)
+    cov["distinct_nontrivial"] = 6 * done + nh
     cov["rule"] = ("per case: one geometry (two inner conductors / coils, two materials), excitation sets S1, S2 drawn at random over "
                    "boundary value, volume source, surface source / magnet, two terminal excitations; runs S1, S2, a*S1+b*S2, zero, "
                    "unit excitation of each terminal through the real femmcli; nodal fields compared on the identical mesh")
